@@ -11,10 +11,13 @@ package main
 
 import (
 	"bytes"
+	"encoding/json"
 	"fmt"
 	"math/rand"
 	"os"
 	"path/filepath"
+	"runtime"
+	"time"
 	"sort"
 	"strconv"
 	"strings"
@@ -237,6 +240,18 @@ func segURL(in c06in, multi bool, media, repID string, nr int64, t uint64) strin
 }
 
 // endMS: the instant the MPD is generated for - the stop time once it has passed.
+// coqWiden: the first-and-last-segment widening of the period range as the model takes it:
+// None = the tree does not widen, (Some atoMS) = it does, with round(1000*ato) of a finite positive offset.
+func coqWiden(atoMS int64) string {
+	if !widenDetected {
+		return "None"
+	}
+	if atoMS < 0 {
+		atoMS = 0
+	}
+	return fmt.Sprintf("(Some %d)", atoMS)
+}
+
 func endMS(in c06in) int64 {
 	if in.StopS > 0 && in.StopS*1000 < in.NowMS {
 		return in.StopS * 1000
@@ -439,6 +454,11 @@ func (lr *liveRun) oracle(id string, in c06in, a *lib.TLAsset, sm *m.MPD, multi 
 		}
 	}
 	kb := ka + int64(len(mm.Periods)) - 1
+	// resource clause: the number of periods is bounded by the window, whatever the timelines say
+	if maxP := (nowEnd-winStart)/(P*1000) + 3 + in.AtoMS/(P*1000); int64(len(mm.Periods)) > maxP && in.AtoMS >= 0 {
+		lr.fail(id, "resource:periods", fmt.Sprintf("%d periods for a window of %d ms and a period of %d s", len(mm.Periods), nowEnd-winStart, P), in)
+		return
+	}
 	if ka > k0 || kb < k1 || ka < lo || kb > hi {
 		lr.fail(id, "tiling:count", fmt.Sprintf("periods %s..P%d (%d), expected to cover P%d..P%d and to stay within P%d..P%d", mm.Periods[0].Id, kb, len(mm.Periods), k0, k1, lo, hi), in)
 		return
@@ -561,10 +581,17 @@ func (lr *liveRun) oracle(id string, in c06in, a *lib.TLAsset, sm *m.MPD, multi 
 			// implied segments of this period that have ended: index i (from availabilityStartTime)
 			iLo := k * P * ts / d
 			iHi := (nowEnd-astMS)*ts/(1000*d) - 1
+			if ts > 1000000 { // the product would leave 63 bits at far instants: whole seconds (a lower bound)
+				iHi = (nowEnd-astMS)/1000*ts/d - 1
+			}
 			if e := (k+1)*P*ts/d - 1; e < iHi {
 				iHi = e
 			}
-			if w := ((winStart-astMS)*ts + 1000*d - 1) / (1000 * d); w > iLo {
+			wLo := ((winStart-astMS)*ts + 1000*d - 1) / (1000 * d)
+			if ts > 1000000 {
+				wLo = ((winStart-astMS)/1000+1)*ts/d + 1
+			}
+			if w := wLo; w > iLo {
 				iLo = w
 			}
 			n := int(iHi - iLo + 1)
@@ -643,13 +670,60 @@ func (lr *liveRun) oracle(id string, in c06in, a *lib.TLAsset, sm *m.MPD, multi 
 	}
 }
 
+const watchdogLimit = 5 * time.Second
+const watchdogHeap = 3 << 30 // bytes
+
+// guarded issues the request in a goroutine and waits at most watchdogLimit for the answer; meanwhile the heap
+// is watched: a request that makes the process allocate more than watchdogHeap is reported and the run is
+// ended at once (the evidence collected so far is written), so that a resource explosion is a failure of the
+// check and not of the machine.
+func (lr *liveRun) guarded(url string) (lib.Resp, time.Duration, bool) {
+	done := make(chan lib.Resp, 1)
+	t0 := time.Now()
+	go func() { done <- lr.ls.GetRaw(url) }()
+	tick := time.NewTicker(50 * time.Millisecond)
+	defer tick.Stop()
+	for {
+		select {
+		case r := <-done:
+			return r, time.Since(t0), true
+		case <-tick.C:
+			var ms runtime.MemStats
+			runtime.ReadMemStats(&ms)
+			if ms.HeapAlloc > watchdogHeap {
+				lr.c.Fail("watchdog", "resource:memory", fmt.Sprintf("%s made the process allocate %d MB", url, ms.HeapAlloc>>20), c06in{Kind: "live", URLMulti: url})
+				lr.abort("resource:memory")
+			}
+			if time.Since(t0) > watchdogLimit {
+				return lib.Resp{}, time.Since(t0), false
+			}
+		}
+	}
+}
+
+// abort writes the result collected so far and ends the process (a request is still running and cannot be stopped).
+func (lr *liveRun) abort(why string) {
+	lr.c.Res.Notes = append(lr.c.Res.Notes, "run ended by the watchdog: "+why)
+	lr.c.Res.Evaluations = len(lr.c.Res.Inputs)
+	data, _ := json.MarshalIndent(lr.c.Res, "", " ")
+	_ = os.WriteFile(filepath.Join(lr.c.Out, "result.json"), data, 0o644)
+	os.Exit(0)
+}
+
 // one L1 case: both MPDs, oracle, correspondence term.
 func (lr *liveRun) live(id int, in c06in, a *lib.TLAsset, inQuantifier bool) (string, bool) {
 	sid := fmt.Sprint(id)
 	in.URLSingle, in.URLMulti = mpdURL(in, false), mpdURL(in, true)
 	lr.c.Res.Inputs[sid] = in
 	single := lr.ls.GetRaw(in.URLSingle)
-	multi := lr.ls.GetRaw(in.URLMulti)
+	multi, took, ok := lr.guarded(in.URLMulti)
+	if !ok {
+		lr.fail(sid, "resource:timeout", fmt.Sprintf("the multi-period MPD request did not answer within %v", watchdogLimit), in)
+		lr.abort("resource:timeout")
+	}
+	if took > watchdogLimit {
+		lr.fail(sid, "resource:slow", fmt.Sprintf("the multi-period MPD request took %v", took), in)
+	}
 	if single.Panic != "" || single.Status != 200 {
 		lr.fail(sid, fmt.Sprintf("single-status-%d", single.Status), "single-period MPD not available: "+single.Panic+string(single.Body), in)
 		return "", false
@@ -727,7 +801,7 @@ func (lr *liveRun) live(id int, in c06in, a *lib.TLAsset, inQuantifier bool) (st
 	if snr < 0 {
 		snr = 0
 	}
-	term := fmt.Sprintf("CLive %d %s %s %s %d %s %s %d %d %d %s %d\n  [%s]\n  %d %s %s", id, lib.Cbool(numGuardDetected), lib.Cbool(widenDetected), lib.Zs(in.PPH), segMS, coqMode(in.Mode), lib.Cbool(in.Cont), in.StartS, snr, in.NowMS, stop, tsbdMS,
+	term := fmt.Sprintf("CLive %d %s %s %s %d %s %s %d %d %d %s %d\n  [%s]\n  %d %s %s", id, lib.Cbool(numGuardDetected), coqWiden(in.AtoMS), lib.Zs(in.PPH), segMS, coqMode(in.Mode), lib.Cbool(in.Cont), in.StartS, snr, in.NowMS, stop, tsbdMS,
 		strings.Join(ases, "; "), status, periods, pub)
 	return term, true
 }
@@ -1226,6 +1300,40 @@ func run(c *lib.Ctx) error {
 				}
 			}
 		}
+		// resource class: every generated layout at far-future instants (2030, 2040): the answer must come
+		// within the watchdog limits and with a number of periods bounded by the window
+		for _, a := range gas {
+			N := int64(len(a.Ref().Segs))
+			segMS := (a.RefDur*1000 + a.RefTS*N/2) / (a.RefTS * N)
+			nAcc := 0
+			for _, pph := range []int64{60, 300, 900, 75, 15, 1800, 30, 5, 1} {
+				P := 3600 / pph
+				if (P*1000)%segMS != 0 || nAcc >= 2 {
+					continue
+				}
+				nAcc++
+				for _, mode := range modes {
+					for _, baseS := range []int64{1893456000, 2208988800} {
+						bnd := baseS / P * P * 1000
+						nows := []int64{baseS*1000 + rng.Int63n(86400000), bnd, bnd + 1}
+						if c.Thorough() {
+							nows = append(nows, bnd-1, bnd+segMS, bnd+60000, baseS*1000)
+						}
+						for _, now := range nows {
+							in := c06in{Kind: "live", Asset: a.Path, MPD: a.MPD, Mode: mode, PPH: pph, Tsbd: []int64{-1, 10, 300}[rng.Intn(3)], Snr: -1,
+								Cont: rng.Intn(3) == 0, NowMS: now, Instant: "far-future"}
+							glr.fetchAll = false
+							term, ok := glr.live(id, in, a, true)
+							c.Count("live/" + mode + "/far-future:" + a.Path)
+							if ok {
+								terms = append(terms, term)
+							}
+							id++
+						}
+					}
+				}
+			}
+		}
 		// fractional-second segment durations crossed with EVERY periods-per-hour value 1..3600: a value is a
 		// candidate when the whole-second period 3600/n (integer division, as the code defines it) or the exact
 		// period 3600000/n ms is a whole number of segments; all candidates and a sample of the others get the
@@ -1325,7 +1433,7 @@ func run(c *lib.Ctx) error {
 		if si.StartNr != nil {
 			snr = *si.StartNr
 		}
-		terms = append(terms, fmt.Sprintf("CSplit %d %s %s %s %d %s %s %s %s %s %s\n  [%s]\n  %d %s", id, lib.Cbool(numGuardDetected), lib.Cbool(widenDetected), pph, si.SegDurMS, coqMode(si.Mode), lib.Cbool(si.Cont),
+		terms = append(terms, fmt.Sprintf("CSplit %d %s %s %s %d %s %s %s %s %s %s\n  [%s]\n  %d %s", id, lib.Cbool(numGuardDetected), coqWiden(0), pph, si.SegDurMS, coqMode(si.Mode), lib.Cbool(si.Cont),
 			lib.Zs(int64(si.StartTimeS)*1000), lib.Zs(int64(snr)), lib.Zs(int64(si.StartTimeMS)), lib.Zs(int64(si.NowMS)),
 			strings.Join(ases, "; "), st, ps))
 		id++
